@@ -162,7 +162,7 @@ theorem leftmost_amt_nonneg {env : Env} (henv : EnvNonneg env) :
   | .str _, a, amt, h => by simp [Expr.leftmost, evalMonetary, evalExpr] at h
   | .portion t, a, amt, h => by
     simp only [Expr.leftmost, evalMonetary, evalExpr] at h
-    cases hp : parsePortionSpecific t <;> simp [hp] at h
+    cases hp : parsePortionGo t <;> simp [hp] at h
   | .mon x n, a, amt, h => by
     simp only [Expr.leftmost, evalMonetary, evalExpr] at h
     split at h
